@@ -47,6 +47,11 @@ def mk_bool(b): return b  # python bool or z3 BoolRef
 def U(w, v): return Int(w, False, v)
 def usize(v): return Int(64, False, v)
 
+PAR_SEM = None
+def set_parallel(n):
+    global PAR_SEM
+    import multiprocessing
+    PAR_SEM = multiprocessing.Semaphore(n - 1) if n > 1 else None
 class Panic(Exception): pass
 class PathEnd(Exception): pass
 class Unsupported(Exception): pass
@@ -120,12 +125,21 @@ class Machine:
     def fork(self, cond):
         self.nfork += 1
         sys.stdout.flush()
+        par = PAR_SEM is not None and PAR_SEM.acquire(block=False)
         pid = os.fork()
         if pid == 0:
-            self.is_child = True
+            self.is_child = True; self.kids = []; self.holds_slot = par
             self.assume(cond); return True
-        os.waitpid(pid, 0)
+        if par:
+            if not hasattr(self, 'kids'): self.kids = []
+            self.kids.append(pid)
+        else:
+            os.waitpid(pid, 0)
         self.assume(z3.Not(cond)); return False
+    def finish(self):
+        """call at the end of a path: reap parallel children, release slot"""
+        for pid in getattr(self, 'kids', []): os.waitpid(pid, 0)
+        if getattr(self, 'holds_slot', False): PAR_SEM.release()
     def choose(self, term, values):
         """term: Int symbolic; fork over listed concrete values + 'otherwise' (None)"""
         for v in values:
